@@ -70,6 +70,9 @@ type ChanObj struct {
 	// timer is set for the channel of a time.Timer / time.After: it delivers once, when the
 	// timer is armed and the receiver has nothing else to proceed with
 	timer *ghostState
+	// recvWaiting > 0 while the harness goroutine is blocked receiving on this channel and
+	// queued goroutines run: a send on an unbuffered channel then finds its receiver
+	recvWaiting int
 }
 
 type Cell struct {
